@@ -221,6 +221,8 @@ type fieldReadRule struct {
 	verb    string // "prints", "lowers"
 	omitted map[string]string
 	derived map[string]string
+	// childrenOnly restricts the rule to child nodes and node lists (a tree walker need not read tokens and flags)
+	childrenOnly bool
 }
 
 // checkFieldsRead: every syntax-bearing field of nt that the parser sets is read by the code that consumes the node
@@ -285,6 +287,9 @@ func checkFieldsRead(c *core.Check, ppk, xpk *packages.Package, node *types.Inte
 	for i := 0; i < st.NumFields(); i++ {
 		f := st.Field(i)
 		if !syntaxField(f, node) {
+			continue
+		}
+		if r.childrenOnly && !isASTNodeType(f.Type()) && !isNodeSlice(f.Type()) {
 			continue
 		}
 		key := nt.Obj().Name() + "." + f.Name()
